@@ -250,13 +250,49 @@ def make_table(name, cols):
     return types.new_class(name, (dsl.Schema,), exec_body=lambda ns: ns.update(fields))
 
 
+def respell(value):
+    """Another python spelling of the SAME literal value: a python value that is ``==`` to ``value``, hashes like it and
+    that the DSL reflects to the same kind (values read back from numpy / pandas containers, the sign of a float zero).
+    None where there is none."""
+    import datetime
+    if isinstance(value, bool):
+        return None  # numpy.bool_ is not a literal type of the DSL
+    if isinstance(value, int):
+        import numpy
+        return numpy.int64(value) if -2 ** 63 <= value < 2 ** 63 else None
+    if isinstance(value, float):
+        import numpy
+        return -value if value == 0.0 else numpy.float64(value)
+    if isinstance(value, str):
+        import numpy
+        return numpy.str_(value)
+    if isinstance(value, datetime.datetime):
+        import pandas
+        return pandas.Timestamp(value)
+    return None
+
+
 class Builder:
     """AST -> real DSL objects.  ``fresh=True`` re-creates even the tables (used to obtain two independently
-    built copies of one structure); otherwise tables are shared per (name, cols)."""
+    built copies of one structure); otherwise tables are shared per (name, cols).
+    Spelling of the literal leaves (the structure built is the same):
+    ``implicit=True`` hands literals over as plain python constants wherever the DSL documents that it converts them
+    itself (operands of operators / functions; a literal asked for on its own - an argument of select / where / ... -
+    is RETURNED as the bare python value); ``respelled=True`` builds every literal from ``respell(value)``."""
 
-    def __init__(self, fresh=False):
+    def __init__(self, fresh=False, implicit=False, respelled=False):
         self.tables = {} if fresh else _TABLE_CACHE
         self.memo = {}
+        self.implicit = implicit
+        self.respelled = respelled
+
+    def literal(self, node):
+        """Python value a literal leaf is built from."""
+        value = lit_value(node)
+        if self.respelled:
+            other = respell(value)
+            value = value if other is None else other
+        return value
 
     def source(self, node):
         key = canon(node)
@@ -310,9 +346,10 @@ class Builder:
         if sort == 'col':
             return self.source(node['src'])[node['name']]
         if sort == 'lit':
-            return dsl.Literal(lit_value(node))
+            return self.literal(node) if self.implicit else dsl.Literal(self.literal(node))
         if sort == 'alias':
-            return self.feature(node['args'][0]).alias(node['name'])
+            inner = self.feature(node['args'][0])
+            return (dsl.Literal(inner) if node['args'][0]['f'] == 'lit' and self.implicit else inner).alias(node['name'])
         args = [self.feature(a) for a in node['args']]
         if sort == 'agg':
             return _ops()['agg'][node['op']](*args)
@@ -323,9 +360,9 @@ class Builder:
         raise ValueError(f'not a feature node: {node}')
 
 
-def build(node, fresh=False):
+def build(node, fresh=False, **spelling):
     """Build the real DSL object of a source or feature AST; raises what the DSL raises."""
-    builder = Builder(fresh)
+    builder = Builder(fresh, **spelling)
     return builder.source(node) if is_source(node) else builder.feature(node)
 
 
